@@ -1,6 +1,6 @@
 ---------------------------- MODULE MC_ConnLife ----------------------------
 EXTENDS Integers, Sequences, FiniteSets, TLC
 CONSTANTS Devs
-VARIABLES procAlive, phase, res, idle, quiet, panics
+VARIABLES procAlive, phase, res, idle, quiet, panics, didle, deaf
 INSTANCE ConnLife WITH Conns <- {1, 2}, Deviations <- Devs, IdleTimeout <- 2
 =============================================================================
